@@ -90,6 +90,12 @@ fn float_alphabet() -> Vec<Vec<CountSpec>> {
             out.push(vec![s(format!("{x}..={y}"))]);
         }
     }
+    // values no f32 holds exactly, as exact values and as span ends (a count fixed in the file must meet them with the
+    // precision of the range's own type)
+    out.push(vec![CountSpec::Float("0.1".into())]);
+    out.push(vec![s("..0.1".to_string())]);
+    out.push(vec![s("0.1..=0.3".to_string())]);
+    out.push(vec![s("0.3..".to_string())]);
     // whole numbers written as JSON integers - negative ones too - for a float range (and next to their positive twin)
     out.push(vec![CountSpec::Int(-2)]);
     out.push(vec![CountSpec::Int(-2), CountSpec::UInt(2)]);
@@ -405,7 +411,7 @@ pub fn run(tier: Tier) -> i32 {
         counts.push(Num::F(if ty == NumTy::F32 { f32::MAX as f64 } else { f64::MAX }));
         counts.push(Num::F(if ty == NumTy::F32 { f32::MIN as f64 } else { f64::MIN }));
         counts.push(Num::F(3.0));
-        counts.extend([Num::F(-2.0), Num::F(2.0), Num::F(-1.0)]);
+        counts.extend([Num::F(-2.0), Num::F(2.0), Num::F(-1.0), Num::F(0.1), Num::F(0.3), Num::F(0.7)]);
         let alpha = float_alphabet();
         let mut decls = vec![];
         for (i, a) in alpha.iter().enumerate() {
@@ -425,7 +431,7 @@ pub fn run(tier: Tier) -> i32 {
             }
         }
         // parse-time counts: only values whose shortest lexeme round-trips through JSON
-        let fk: Vec<Num> = base.iter().map(|x| Num::F(*x)).chain([Num::F(3.0), Num::F(-7.75), Num::F(-2.0), Num::F(2.0)]).collect();
+        let fk: Vec<Num> = base.iter().map(|x| Num::F(*x)).chain([Num::F(3.0), Num::F(-7.75), Num::F(-2.0), Num::F(2.0), Num::F(0.1), Num::F(0.3), Num::F(0.7)]).collect();
         for c in decls.chunks(60) {
             pack(Some(ty), c.to_vec(), &counts, &fk, "float", &mut jobs, &mut singles);
         }
